@@ -119,6 +119,8 @@ type plan struct {
 	onOp         func(j int, info opInfo, nParked, chosen int) // called by the root for every released op
 	readFault    func(j int, info opInfo) *readFault           // called by the root for every released read (after onOp): non-nil arms a fault on it
 	choose       func(n int) int                               // picks among n parked requests (sorted by content key)
+	cancelWhen   func(j int, info opInfo) bool                 // called by the root for every released op (after onOp): true = cancel the context just before it executes (once)
+	failWhen     func(k int, info opInfo) bool                 // called by the root for every released commit (after onOp): true = it returns errInjected (once)
 	maxOps       int
 }
 
@@ -215,7 +217,7 @@ func (s *sched) run(p plan, fn func() error) (err error, broken string) {
 		if p.onOp != nil {
 			p.onOp(s.ops, r.info, len(reqs), i)
 		}
-		if p.cancelAtOp != 0 && s.ops == p.cancelAtOp && !s.cancelFired {
+		if !s.cancelFired && ((p.cancelAtOp != 0 && s.ops == p.cancelAtOp) || (p.cancelWhen != nil && p.cancelWhen(s.ops, r.info))) {
 			s.cancelFired = true
 			s.cancelInfo = r.info
 			p.cancel()
@@ -224,7 +226,7 @@ func (s *sched) run(p plan, fn func() error) (err error, broken string) {
 		ok := true
 		if r.info.kind == opCommit {
 			s.commits++
-			if p.failCommitAt != 0 && s.commits == p.failCommitAt {
+			if (p.failCommitAt != 0 && s.commits == p.failCommitAt) || (p.failWhen != nil && !s.commitFailed && p.failWhen(s.commits, r.info)) {
 				ok = false
 				s.commitFailed = true
 				s.failInfo = r.info
